@@ -19,6 +19,7 @@ func stackTrace() string {
 // BlockOpts tweak the block builder (attacks on the block itself).
 type BlockOpts struct {
 	TimeDelta   time.Duration // timestamp = parent + TimeDelta (default: block interval)
+	AbsTime     *time.Time    // absolute timestamp (overrides TimeDelta; may be earlier than the parent's)
 	PayoutDelta int64         // add to the miner payout (hastings); 0 = correct
 	MinerAddr   *types.Address
 	ForceV1     bool // build a v1 block even when v2 is allowed (no V2 data)
@@ -103,9 +104,13 @@ func (w *World) BuildBlock(v1 []types.Transaction, v2 []types.V2Transaction, o B
 	if o.MinerAddr != nil {
 		addr = *o.MinerAddr
 	}
+	ts := cs.PrevTimestamps[0].Add(dt)
+	if o.AbsTime != nil {
+		ts = *o.AbsTime
+	}
 	b := types.Block{
 		ParentID:     cs.Index.ID,
-		Timestamp:    cs.PrevTimestamps[0].Add(dt),
+		Timestamp:    ts,
 		MinerPayouts: []types.SiacoinOutput{{Value: reward, Address: addr}},
 		Transactions: v1,
 	}
